@@ -142,6 +142,20 @@ func c11Concurrent(c *mon.Ctx, idx int) {
 					case n > 0 && n < j.n0 && !res.max:
 						bad[gi] = fmt.Sprintf("budget %d below N=%d on %q did not fail with the max-expressions error", n, j.n0, j.s)
 					}
+					// the same through the public option (CreateEvaluator builds the
+					// parser's option list itself)
+					if n > 1 && bad[gi] == "" {
+						ev, err, pan, _ := createEval(j.s, bexpr.WithMaxExpressions(n))
+						wantOK := j.ok && n >= j.n0
+						switch {
+						case pan != "":
+							bad[gi] = "CreateEvaluator panicked: " + pan
+						case (err == nil) != wantOK || (ev != nil) != wantOK:
+							bad[gi] = fmt.Sprintf("CreateEvaluator with budget %d (N=%d, valid=%v) on %q: err=%v", n, j.n0, j.ok, j.s, err)
+						case n < j.n0 && !isMaxExprErr(err):
+							bad[gi] = fmt.Sprintf("CreateEvaluator with budget %d below N=%d on %q did not fail with the max-expressions error: %v", n, j.n0, j.s, err)
+						}
+					}
 				}
 			}
 		}()
@@ -392,6 +406,18 @@ func c11Run(c *mon.Ctx, idx int) {
 					}
 					c.Count("parsefile_parity_checked")
 				}
+			}
+		}
+		// ... and so can the caller's option SLICE, spread into several calls
+		gslice := []grammar.Option{grammar.MaxExpressions(below), grammar.Recover(true)}
+		bslice := []bexpr.Option{nil, bexpr.WithMaxExpressions(below), nil}
+		for use := 1; use <= 3; use++ {
+			_, e1, _, _ := parsePublic(s, gslice...)
+			_, e3 := grammar.ParseReader("", strings.NewReader(s), gslice...)
+			_, e2, _, _ := createEval(s, bslice...)
+			if !isMaxExprErr(e1) || !isMaxExprErr(e2) || !isMaxExprErr(e3) {
+				viol("reused-option-slice-loses-budget", "an option slice spread into a second call no longer enforces its budget", map[string]any{"input": fmt.Sprintf("%q", clip(s, 200)), "budget": below, "use": use, "parse_error": fmt.Sprint(e1), "parsereader_error": fmt.Sprint(e3), "create_error": fmt.Sprint(e2)})
+				return
 			}
 		}
 		gopt := grammar.MaxExpressions(below)
